@@ -13,6 +13,7 @@ import Mathlib.Algebra.Field.Rat
 import Mathlib.Tactic.FinCases
 import Mathlib.Tactic.NormNum
 import DarsiaProofs.Csc
+import DarsiaProofs.CscGeneral
 import DarsiaGen.Dispatch
 namespace Darsia.C08
 open Darsia Darsia.Saddle
@@ -96,17 +97,37 @@ theorem documented_backends_complete :
 
 /-! ### CSC surgery (`setup_eliminate_lagrange_multiplier`, `eliminate_lagrange_multiplier`)
 
-Full statement aimed at (NOT proved in this generality):
-  `∀ m k, patternOk m.indices m.indptr k → ∃ r, surgery m k = .ok r ∧ r.ncols + 2 = m.ncols ∧
-     ∀ i j < r.ncols, entry r i j = entry m (up k i) (up k j)`
-i.e. for every well-formed CSC matrix whose multiplier row/column couples to the pinned cell only and in
-which no other column is emptied, the array surgery equals dropping rows/columns `{k, last}` of the dense
-matrix. What is proved: the same conclusion from the decidable per-pattern certificate `surgeryCheck`
-(instead of `patternOk`), for arbitrary data; the check evaluates `patternOk` and `surgeryCheck` with the
-model on every grid shape of the C07 range and compares the model's arrays with the implementation's. -/
+`DarsiaModel.Csc.surgery` follows the numpy operations one by one (`np.arange`, `np.where`, `np.unique`,
+`np.delete`, index shift, the `indptr[row+1:] -= 1` loop, `np.unique(indptr)`, the length assert).
+`patternOk` is the decidable well-formedness the code silently relies on (monotone `indptr` from 0 to nnz,
+the multiplier column only couples to row `k`, no other column is emptied); the check evaluates it on the
+pattern of every grid shape. -/
 
-/-- **partial**: for any data (weights) and any additive structure, if the sparsity pattern passes the
-certificate, the arrays produced by the surgery represent the matrix with rows/columns `k`, `last` dropped. -/
+/-- **general theorem**: for EVERY well-formed pattern and arbitrary data (weights) the array surgery
+succeeds, removes exactly two columns, and entry `(i, j)` of the result is entry `(up k i, up k j)` of the
+input — rows and columns `k` and `last` are dropped (`up k` skips index `k`; `last` is never reached). -/
+theorem csc_surgery_dense {α : Type} [Add α] [OfNat α 0] (m : Csc.CSC α) (k : Nat)
+    (hp : Csc.patternOk m.indices m.indptr k = true) (hlen : m.data.length = m.indices.length) :
+    ∃ r, Csc.surgery m k = .ok r ∧ r.ncols + 2 = m.ncols ∧
+      ∀ i j, j < r.ncols → Csc.entry r i j = Csc.entry m (Csc.up k i) (Csc.up k j) :=
+  Csc.surgery_dense m k hp hlen
+
+/-- the same in matrix form: `toDense (surgery m k) = dropRowCol (toDense m) {k, last}` (dense matrices as
+column-major lists; `dropRowCol` deletes list positions `k` and `last` in both directions) -/
+theorem csc_surgery_toDense {α : Type} [Add α] [OfNat α 0] (m : Csc.CSC α) (k : Nat)
+    (hp : Csc.patternOk m.indices m.indptr k = true) (hlen : m.data.length = m.indices.length) :
+    ∃ r, Csc.surgery m k = .ok r ∧
+      Csc.toDenseT r (m.ncols - 2) = Csc.dropRowCol 0 (Csc.toDenseT m m.ncols) k (m.ncols - 1) :=
+  Csc.surgery_toDense m k hp hlen
+
+/-- the structural part in closed form: `rm_indices`, the shifted row indices of the kept entries and the new
+`indptr` = number of kept positions below each surviving column boundary -/
+theorem csc_surgery_arrays (I P : List Nat) (k : Nat) (hp : Csc.patternOk I P k = true) :
+    Csc.surgeryPattern I P k = .ok (Csc.rmIndices I P k, Csc.newIndices I P k, Csc.newIndptr I P k) :=
+  (Csc.wf_of_patternOk hp).surgeryPattern_ok
+
+/-- certificate route (kept from round 1; now a special case of `csc_surgery_dense`): if the sparsity pattern passes the
+decidable per-pattern certificate, the arrays produced by the surgery represent the matrix with rows/columns `k`, `last` dropped. -/
 theorem csc_surgery_dense_partial {α : Type} [Add α] [OfNat α 0] (m r : Csc.CSC α) (k : Nat)
     (hlen : m.data.length = m.indices.length)
     (hs : Csc.surgery m k = .ok r) (hc : Csc.surgeryCheck m.indices m.indptr k = true) :
